@@ -202,12 +202,12 @@ def run_batch(batch: list, run_one) -> list:
     return results
 
 
-def run_history_prefix(spec: dict, log: EventLog):
+def run_history_prefix(spec: dict, log: EventLog, extra_for=None):
     "execute the generator calls that preceded this run in its process (outcomes are irrelevant, only their side effects)"
     hist = spec.get("history") or []
     for h in hist:
         try:
-            execute(h, EventLog())
+            execute(h, EventLog(), extra=extra_for(h) if extra_for is not None else None)
         except BaseException:  # noqa: BLE001 - a failing predecessor is still a predecessor
             pass
     if hist:
